@@ -14,6 +14,7 @@ import Driver.OpsMem
 import Driver.OpsConc
 import Driver.OpsCopy
 import Driver.OpsGen
+import Driver.OpsGoString
 import GoderiveModel.U.Typing
 import GoderiveModel.S.Equal
 import GoderiveModel.Spec.StructEq
@@ -78,6 +79,9 @@ def runOp (s : DState) (name : String) (args : List SExp) : String :=
   | some r => r
   | none =>
   match OpsGen.run s name args with
+  | some r => r
+  | none =>
+  match OpsGoString.run s name args with
   | some r => r
   | none => runOpCore s name args
 
